@@ -1,5 +1,5 @@
 """C10 -- reader-writer lock: writers exclusive, readers shared, nobody stuck."""
-from vr import Obl
+from vr import Obl, deepen
 
 META = {
     "explanation": "E1 monitor step: one real rdlock/wrlock/unlock from an arbitrary consistent (reader_count, write_flag) state with 0..2 lockers already blocked; "
@@ -23,6 +23,7 @@ def obligations(tier):
                      cut_loops=SPIN + ["ABT_rwlock_rdlock@while \\(p_rwlock->write_flag", "ABT_rwlock_wrlock@while \\(\\(p_rwlock->write_flag"], unwindset=["ABTI_mutex_lock_no_recursion.0:2"], object_bits=11, backend="cadical",
                      encodes=["ABT_rwlock_rdlock", "ABT_rwlock_wrlock", "ABT_rwlock_unlock", "ABTI_cond_wait", "ABTI_cond_broadcast", "ABTI_mutex_lock", "ABTI_mutex_unlock"],
                      bounds="one call; wait loop: 2 rounds then cut; 0..2 blocked lockers", symbolic="reader_count, write_flag, number/kind of blocked lockers, monitor state after every wait"))
+    o += deepen([x for x in o if x.hooks], tier)
     return o
 
 MANIFEST_ENTRY = {
